@@ -253,6 +253,19 @@ func canonicalLabelSet(labelStr string) string {
 	return strings.Join(items[first:], ",")
 }
 
+// The label part ("{key:value,key:value,") of a group id of a vector with the given metric name. The ids of a vector
+// that comes from an `or` can start with different metric names: an id that does not start with the metric name of the
+// vector is cut at its first "{".
+func labelPartOfGroupID(groupID string, metricName string) (string, bool) {
+	if strings.HasPrefix(groupID, metricName) && (len(groupID) == len(metricName) || groupID[len(metricName)] == '{') {
+		return groupID[len(metricName):], true
+	}
+	if idx := strings.Index(groupID, "{"); idx >= 0 {
+		return groupID[idx:], true
+	}
+	return "", false
+}
+
 func HelperQueryArithmeticAndLogical(queryOp *structs.QueryArithmetic, resMap map[uint64]*mresults.MetricsResult, opLabelsDoNotNeedToMatch bool,
 	timeRange *dtu.MetricsTimeRange, qid uint64) (map[string]map[uint32]float64, *float64, error) {
 
@@ -454,8 +467,8 @@ func HelperQueryArithmeticAndLogical(queryOp *structs.QueryArithmetic, resMap ma
 		rGroupIDOfLabelSet := make(map[string]string)
 		if !hasVectorMatchingOp && !opLabelsDoNotNeedToMatch {
 			for rGroupID := range resultRHS.Results {
-				if len(rGroupID) >= len(resultRHS.MetricName) {
-					labelSet := canonicalLabelSet(rGroupID[len(resultRHS.MetricName):])
+				if labelPart, ok := labelPartOfGroupID(rGroupID, resultRHS.MetricName); ok {
+					labelSet := canonicalLabelSet(labelPart)
 					if prevID, exists := rGroupIDOfLabelSet[labelSet]; !exists || rGroupID < prevID {
 						rGroupIDOfLabelSet[labelSet] = rGroupID
 					}
@@ -478,8 +491,8 @@ func HelperQueryArithmeticAndLogical(queryOp *structs.QueryArithmetic, resMap ma
 				}
 				labelSet = matchingLabelVal
 				rGroupID = matchingLabelValTorightGroupID[matchingLabelVal]
-			} else if len(lGroupID) >= len(resultLHS.MetricName) {
-				labelSet = canonicalLabelSet(lGroupID[len(resultLHS.MetricName):])
+			} else if labelPart, ok := labelPartOfGroupID(lGroupID, resultLHS.MetricName); ok {
+				labelSet = canonicalLabelSet(labelPart)
 				rGroupID = rGroupIDOfLabelSet[labelSet]
 			}
 
@@ -517,8 +530,8 @@ func HelperQueryArithmeticAndLogical(queryOp *structs.QueryArithmetic, resMap ma
 				labelSet := ""
 				if hasVectorMatchingOp || opLabelsDoNotNeedToMatch {
 					labelSet = rightIDToMatchingLabelSet[rGroupID]
-				} else if len(rGroupID) >= len(resultRHS.MetricName) {
-					labelSet = canonicalLabelSet(rGroupID[len(resultRHS.MetricName):])
+				} else if labelPart, ok := labelPartOfGroupID(rGroupID, resultRHS.MetricName); ok {
+					labelSet = canonicalLabelSet(labelPart)
 				}
 
 				// For 'or' op, a sample of the right vector is taken where no series of the left vector with the same label set has one.
